@@ -227,5 +227,5 @@ def rule_terminate_or_fail(rep, prog, rule, allowed=None, report_all=False):
            % (nbodies, ncand, len(term_calls)))
     for k in allowed:
         if k not in seen_allowed:
-            rep.fail(rule, "stale allow entry %s / %s" % (short(k[0]), k[1]),
-                     "the permitted drop `%s` in `%s` no longer exists: the table must be re-confirmed" % (k[1], k[0]))
+            rep.stale(rule, "%s / %s" % (short(k[0]), k[1]), "permitted drop `%s` in `%s`" % (k[1], k[0]))
+    rep.stale_floor(rule, "permitted Ok-path drops", len(allowed))
